@@ -122,9 +122,11 @@ def check_cfg(
             )
             queue += [
                 # We enumerate the successor starting from the back, so we start with
-                # the `True` branch. This way, we find errors in a more natural order
+                # the `True` branch. This way, we find errors in a more natural order.
+                # Dummy successors (unreachable code following a jump) are checked too,
+                # exactly as for the entry BB above
                 (checked_bb, i, succ)
-                for i, succ in reverse_enumerate(bb.successors)
+                for i, succ in reverse_enumerate(bb.successors + bb.dummy_successors)
             ]
             compiled[bb] = checked_bb
 
